@@ -262,12 +262,36 @@ def stepTop (h : Hooks) (s : Sess) (toks : List String) : Sess × String :=
   | ["ndarts"] => (s, s!"ok {s.m.n} {((List.range s.m.n).filter (fun d => s.m.unused d)).length}")
   | ["tx"] => ({ s with inTx := true, txIgnore := false, txOps := #[] }, "ok")
   | ["txi"] => ({ s with inTx := true, txIgnore := true, txOps := #[] }, "ok")
+  -- `n_vertices()`: the number of defined slots of the vertex storage (not the number of vertex cells)
+  | ["nvert"] => (s, s!"ok {((List.range s.m.n).filter (fun d => (s.m.att 0 d).isSome)).length}")
+  -- `is_i_free::<I>(d)` / `is_free(d)` (`isfree all d`): plain reads of the images
+  | ["isfree", i, d] =>
+      match d.toNat?, (if i = "all" then some (List.range s.cfg.nb) else i.toNat?.map (fun i => [i])) with
+      | some d, some is =>
+          if is.all (· < s.cfg.nb) then
+            let p : P Val String := do
+              let vs ← is.mapM (fun i => rB i d)
+              pure (toString (vs.all (· == 0)))
+            (s, outStr (atomically p s.m).1)
+          else (s, "panic")
+      | _, _ => (s, "bad-op")
   | _ =>
     -- `f`-prefixed force variants behave like a single-op transaction
     let toks' := match toks with
       | t :: rest =>
           if t ∈ ["flink", "funlink", "fsew", "funsew"] then (t.drop 1).toString :: rest
           else if t ∈ ["orbitnt", "vidnt", "eidnt", "fidnt", "volidnt"] then (t.dropEnd 2).toString :: rest
+          -- `i_cell::<I>(d)` is the orbit of the I-cell's policy (`assert!(I < dim + 1)`: handled below)
+          else if t = "icell" then
+            match rest with
+            | [i, d] =>
+                let pol := match i with
+                  | "0" => "v" | "1" => "e" | "2" => "f"
+                  | "3" => if s.dim = 3 then "vol" else ""
+                  | _ => ""
+                -- I out of range: the `assert!` panics (an out-of-range `beta` is the model's panic)
+                if pol = "" then (if i.toNat?.isSome then ["beta", "9", d] else toks) else ["orbit", pol, d]
+            | _ => toks
           else toks
       | [] => toks
     match txOpAll h s toks' with
